@@ -31,7 +31,8 @@ RULE = ("case = (arm, random parametrised diagram with <=3 qubits / <=2 tensor "
         "and non-linear expressions of 1-3 symbols, one differentiation "
         "variable occurring in >=1 box, 3 random real points); non-trivial = "
         "the gradient was compared with the sympy derivative; distinct by the "
-        "repr of the diagram, the variable and the mode.")
+        "repr of the diagram, the variable and the mode."
+        "  Also: both gradient modes on one small pure circuit; the gradient lambdified once and called at every point (circuits); daggered classical gates (real symbols).")
 SIZES = {"quick": (16, 18), "thorough": (16, 250)}
 TIMEOUT = {"quick": 900, "thorough": 5400}
 COVER = {
